@@ -165,6 +165,7 @@ enum KnownIccTrc {
     Linear,
     Srgb,
     Bt709,
+    Dci,
     Pq,
     Hlg,
 }
@@ -192,17 +193,22 @@ impl From<KnownIccTrc> for TransferFunction {
             KnownIccTrc::Linear => TransferFunction::Linear,
             KnownIccTrc::Srgb => TransferFunction::Srgb,
             KnownIccTrc::Bt709 => TransferFunction::Bt709,
+            KnownIccTrc::Dci => TransferFunction::Dci,
             KnownIccTrc::Pq => TransferFunction::Pq,
             KnownIccTrc::Hlg => TransferFunction::Hlg,
         }
     }
 }
 
+/// Gamma of 2.6 in s15Fixed16, as written by `colour_encoding_to_icc`.
+const DCI_GAMMA: i32 = (65536 * 26 + 5) / 10;
+
 impl KnownIccTrc {
     fn from_gamma(g_s15fixed16: i32) -> Option<Self> {
         match g_s15fixed16 {
             ..=65535 => None,
             65536 => Some(Self::Linear),
+            DCI_GAMMA => Some(Self::Dci),
             g => Some(Self::ParametricGamma(g as u32)),
         }
     }
